@@ -46,6 +46,10 @@ def explore(ctx, art):
     # Stop() comes: the sweep holds its snapshot of the connection table, so Stop() and the sweep both find the same closed
     # connections and both shut their sessions down
     lines += ["case udp srvstop k%di stop" % k for k in (2, 3, 3, 4)]
+    # ... and a datagram server that got its context from the application (options.WithContext) and is shut down by
+    # cancelling it (no Stop()), with a request of the server's own in flight on every peer's connection (acknowledged,
+    # never answered, context without deadline)
+    lines += ["case udp srvstop k%dx stop" % k for k in (1, 3)]
     # a stream server accepts a connection whose peer is already gone: the signalling message written during the set-up
     # fails; the connection handed to OnNewConn must still complete its done signal and run its callbacks once
     lines += ["case tcp srvstop deadpeer stop"]
